@@ -441,6 +441,24 @@ C17_run(H) ==
                       /\ hops[k].names = (IF ex.rdns THEN <<"name-of-hop">> ELSE <<>>)
          /\ hops[7].addr = "" /\ hops[8].addr # ""
 
+\* C13: the document reported on a real kernel path equals KernelPath!Expected (CLI output has no destination flag:
+\* there the clipped length and the positive end-to-end sample show that the destination was recognised)
+C13_lab(H) ==
+    LET ex == H.par.expect  out == H.out IN
+    /\ out.ok = ex.ok
+    /\ (~ex.ok => out.notsupported = ex.notsupported)
+    /\ ex.ok =>
+         /\ Len(out.runs) = H.par.queries
+         /\ \A r \in DOMAIN out.runs :
+              LET hops == out.runs[r].hops IN
+              /\ Len(hops) = Len(ex.hops)
+              /\ \A k \in DOMAIN ex.hops :
+                    /\ hops[k].ttl = ex.hops[k].ttl /\ hops[k].addr = ex.hops[k].addr
+                    /\ (H.par.cli \/ hops[k].dest = ex.hops[k].dest)
+                    /\ hops[k].rtt_us >= 0 /\ (hops[k].reach <=> hops[k].addr # "")
+              /\ out.runs[r].dst = ex.hops[Len(ex.hops)].addr
+         /\ Len(out.rtts_us) = H.par.e2e /\ \A i \in DOMAIN out.rtts_us : out.rtts_us[i] > 0
+
 \* C20: TCP method policy (expect20 = TcpPolicy!Code for the scenario's method / capability / injected failure)
 IsSynProbe(p) == p.kind = "tcp" /\ p.flags = SYN
 IsSackProbe(p) == p.kind = "tcp" /\ HasFlag(p, ACK) /\ ~HasFlag(p, SYN)
